@@ -179,6 +179,9 @@ class Environment:
         Timeout: when Timeout is created
         Process: when send raise StopIteration (the coroutine finish execution)
         """
+        if delay < 0:
+            raise ValueError(f'Negative delay {delay}')
+
         heappush(self._queue,
                  (self._now + delay, priority, next(self._eid), event))
 
